@@ -110,10 +110,10 @@ class Boom(Exception):
 def replay_history(fa, hist, init_reg, check=True):
     """Run one history on fresh real objects.  Returns (violations, model_state, observed trace)."""
     stub = Stub.get_inst()
-    R = fa.fpu.MXCSRRegister()
+    Rs = [fa.fpu.MXCSRRegister(), fa.fpu.MXCSRRegister()]  # two register objects (the hardware register is one per thread)
     viols = []
     objs = []  # real context objects
-    margs = []  # model: (args, created_reg)
+    margs = []  # model: (args, created_reg, register object index)
     stack = []  # model: (saved_reg, k)
     trace = []
     stub.set(init_reg)
@@ -123,8 +123,9 @@ def replay_history(fa, hist, init_reg, check=True):
             kind = ev[0]
             try:
                 if kind == "create":
-                    objs.append(R(FZ=ev[1], DAZ=ev[2], RN=ev[3]))
-                    margs.append(((ev[1], ev[2], ev[3]), reg))
+                    ri = ev[4] if len(ev) > 4 else 0
+                    objs.append(Rs[ri](FZ=ev[1], DAZ=ev[2], RN=ev[3]))
+                    margs.append(((ev[1], ev[2], ev[3]), reg, ri))
                 elif kind == "enter":
                     k = ev[1]
                     stack.append((reg, k))
@@ -188,7 +189,9 @@ def enabled(model, depth_max, raised, nobj_max, argsets):
     evs = []
     if len(margs) < nobj_max:
         for a in argsets:
-            evs.append(("create",) + a)
+            evs.append(("create",) + a + (0,))
+            if margs:  # the first context is made from register object 0 (symmetry)
+                evs.append(("create",) + a + (1,))
     if len(stack) < depth_max:
         for k in range(len(margs)):
             evs.append(("enter", k))
@@ -202,7 +205,7 @@ def enabled(model, depth_max, raised, nobj_max, argsets):
 
 def canon(model, raised):
     reg, stack, margs = model
-    return (reg & CTRL, tuple((s & CTRL, k) for s, k in stack), tuple((a, c & CTRL) for a, c in margs), raised)
+    return (reg & CTRL, tuple((s & CTRL, k) for s, k in stack), tuple((m[0], m[1] & CTRL, m[2]) for m in margs), raised)
 
 
 def explore(fa, init_reg, argsets, depth_max, nobj_max, max_len, part):
